@@ -459,3 +459,68 @@ func (g *Gen) scClone(p *Pool) []Op {
 		op("CloneEval", v0), op("EnumRemoveAllValues", e), op("EnumAddValue", e, cl),
 		op("CloneEnum", ce)}
 }
+
+// bulkSent: an interface (detached from its bus, or attached) sends three messages, one of them with
+// a static CAN-ID in the middle of the id order; RemoveAllSentMessages must clear the sender of every
+// one of them
+func (g *Gen) scBulkSent(p *Pool) []Op {
+	i := g.r.pick(liveIfaces(p))
+	if i == 0 {
+		return nil
+	}
+	ni := p.iface(i)
+	var ms []int64
+	for _, h := range p.of(KMsg) {
+		m := p.msg(int64(h))
+		if (m.SenderNodeInterface() == nil || m.SenderNodeInterface() == ni) && m.SizeByte() <= 8 {
+			ms = append(ms, int64(h))
+		}
+	}
+	if len(ms) < 3 {
+		return nil
+	}
+	nd := int64(p.byID[ni.Node().EntityID()])
+	var ops []Op
+	detached := g.r.chance(65)
+	if pb := ni.ParentBus(); pb != nil && detached {
+		ops = append(ops, op("BusRemoveNodeInterface", int64(p.byID[pb.EntityID()]), nd))
+	}
+	c := int64(g.r.below(5))
+	st := ms[g.r.below(3)] // which of the three gets the static CAN-ID
+	ops = append(ops, op("IfRemoveAllSent", i),
+		op("MsgUpdateName", ms[0], 0), op("MsgUpdateName", ms[1], 1), op("MsgUpdateName", ms[2], 2),
+		op("MsgUpdateID", ms[0], 0), op("MsgUpdateID", ms[1], 1), op("MsgUpdateID", ms[2], 2),
+		op("IfAddSent", i, ms[0]), op("IfAddSent", i, ms[1]), op("IfAddSent", i, ms[2]),
+		op("MsgSetStatic", st, c),
+		op("IfRemoveAllSent", i),
+		// every message is free again: another interface may send them
+		op("IfAddSent", i, ms[2]), op("IfAddSent", i, ms[0]), op("MsgSetStatic", ms[0], (c+1)%5), op("IfRemoveAllSent", i))
+	return ops
+}
+
+// resize: the LAST signal of a payload grows across a byte boundary through its type; a new size of the
+// message between the old and the new end of that signal must be refused (the payload would be cut)
+func (g *Gen) scResize(p *Pool) []Op {
+	free := detachedStd(p)
+	t4, t8, t12, t16 := typeOfSize(p, 4), typeOfSize(p, 8), typeOfSize(p, 12), typeOfSize(p, 16)
+	var m int64
+	for _, h := range p.of(KMsg) {
+		if mm := p.msg(int64(h)); mm.SizeByte() == 8 || mm.SizeByte() == 4 {
+			m = int64(h)
+		}
+	}
+	if len(free) < 2 || t4 == 0 || t8 == 0 || t12 == 0 || t16 == 0 || m == 0 {
+		return nil
+	}
+	x, f0 := free[0], free[1]
+	return []Op{op("MsgRemoveAllSignals", m), op("MsgUpdateSize", m, 8),
+		op("SigUpdateName", x, 0), op("SigUpdateName", f0, 1), op("StdSetType", x, t4), op("StdSetType", f0, t4),
+		op("MsgInsertSignal", m, f0, 0), op("MsgInsertSignal", m, x, 4), // x is the last signal: bits 4..7, one byte
+		op("StdSetType", x, t8),    // bits 4..11: two bytes
+		op("MsgUpdateSize", m, 1),  // refused: cuts x
+		op("MsgUpdateSize", m, 2),  // fits exactly
+		op("StdSetType", x, t16),   // refused: no room in two bytes
+		op("MsgUpdateSize", m, 4), op("StdSetType", x, t16), // bits 4..19: three bytes
+		op("MsgUpdateSize", m, 2),  // refused
+		op("MsgUpdateSize", m, 3), op("StdSetType", x, t4), op("MsgUpdateSize", m, 1), op("MsgUpdateSize", m, 0)}
+}
